@@ -12,6 +12,7 @@ All theorems are for arbitrary element values, lengths, duplicates and `Int` arg
 -/
 import Golib.Proof.C14ArenaDst
 import Golib.Proof.C14FlexFast
+import Golib.Proof.C14FlexAlias
 
 namespace Golib.C14
 
@@ -264,6 +265,18 @@ theorem c14_flex_child (g : Nat → Nat → Nat) (f : Flex) (v : List Int) (st l
    fun h0 h => (flex_child_pop f st l h0 hi).1 h,
    fun h0 h1 h2 => (flex_child_pop f st l h0 hi).2 h1 h2⟩
 
+/-- **`Prepend(v...)` with `v` aliasing the receiver** (`f.Prepend(f.Values[a:a+n1]...)`; repaired code,
+F17 / 5e7c306).  For EVERY state with `len ≤ cap` and EVERY window `[a, a+n1)` of the receiver's
+own backing array — inside the content, straddling its end, or lying in the spare capacity —
+whether the call reallocates or fits into the capacity: no panic, and afterwards
+`Values = (the window as it was before the call) ++ (the old Values)`, i.e. plain sequence
+semantics, regardless of spare capacity.  (A window with `a + n1 > cap` is a slice-bounds panic of
+the CALLER's slice expression.)  The pre-fix code violated this for inner windows with spare
+capacity: `Findings/C14PrependAlias.lean`. -/
+theorem c14_flex_prepend_alias (f : Flex) (a n1 : Nat) (h : f.Inv) (ha : a + n1 ≤ f.cap) :
+    ∃ f', f.prependWin a n1 = some f' ∧ f'.Inv ∧ f'.values = (f.mem.drop a).take n1 ++ f.values :=
+  prependWin_spec f a n1 h ha
+
 /-! ### non-vacuity -/
 
 /-- dst = s1[:0] on a slice with duplicates: the result overwrites the front of `s1` -/
@@ -290,6 +303,10 @@ example : equalE floatEq [1, nanCode] [1, nanCode] = some false ∧ indexE float
       some ([nanCode, 0, nanCode, negZeroCode, 0], .fresh [nanCode, 0, nanCode] false) ∧
     diffA floatEq [nanCode, 3, nanCode, 3] none ⟨0, 2, 2⟩ ⟨2, 2, 2⟩ =
       some ([nanCode, 3, nanCode, 3], .fresh [nanCode] false) := by decide
+/-- the F17 witness (cap 8, content [1 2 3], `f.Prepend(f.Values[1:3]...)`) and a window reaching into
+the spare capacity, on the repaired model -/
+example : (Flex.prependWin ⟨[1, 2, 3, 0, 0, 0, 0, 0], 3⟩ 1 2).map Flex.values = some [2, 3, 1, 2, 3] ∧
+    (Flex.prependWin ⟨[1, 2, 3, 7, 8, 0, 0, 0], 3⟩ 2 3).map Flex.values = some [3, 7, 8, 1, 2, 3] := by decide
 /-- the layout of seeded change C14-E: `s2 = s1[1:2]` inside `s1 = [3 7 5 7]`: both 7s are kept -/
 example : intersectInPlaceA intEq [3, 7, 5, 7] ⟨0, 4, 4⟩ ⟨1, 1, 1⟩ = some ([7, 7, 5, 3], .win 0 2) := by decide
 example : diffInPlaceA intEq [9, 3, 7, 5, 7, 9] ⟨1, 4, 4⟩ ⟨2, 2, 2⟩ = some ([9, 3, 7, 5, 7, 9], .win 1 1) := by decide
